@@ -1,0 +1,22 @@
+//go:build verif
+
+// Contracts for the exovc verifier (/verif). Comment-only: with the tag off this file is not part
+// of the package, with the tag on it declares nothing.
+package types
+
+// C10: the signer the SDK ante handler verifies is the account the message names as its sender.
+//@ func (*RegisterOperatorReq).GetSigners
+//@   requires m != nil
+//@   ensures[C10.sig.register] len(result) == 1 && result[0] == bech32addr(m.FromAddress)
+
+//@ func (*SetConsKeyReq).GetSigners
+//@   requires m != nil
+//@   ensures[C10.sig.setkey] len(result) == 1 && result[0] == bech32addr(m.Address)
+
+//@ func (*OptIntoAVSReq).GetSigners
+//@   requires m != nil
+//@   ensures[C10.sig.optin] len(result) == 1 && result[0] == bech32addr(m.FromAddress)
+
+//@ func (*OptOutOfAVSReq).GetSigners
+//@   requires m != nil
+//@   ensures[C10.sig.optout] len(result) == 1 && result[0] == bech32addr(m.FromAddress)
